@@ -2,11 +2,13 @@
 
 Part 1 (E3 configurations x E1 delivery order): every layout of the stated family, one broadcast from every node,
         FIFO delivery plus every single reordering of two datagrams that can meet at one receiver; the recorder
-        above each B/IP layer is compared with Annex J.4.5 written as set algebra (bv/refs/bbmdref.py).
+        above each B/IP layer is compared with Annex J.4.5 written as set algebra (bv/refs/bbmdref.py).  Family C puts
+        foreign devices on the wire of a BBMD other than their registrar (they then see that BBMD's local traffic too).
 Part 2 (E2): breadth-first search over application / management / time histories of foreign devices on the real
         BIPForeign / BIPBBMD objects (virtual clock, perfect network), deduplicated on a canonical state; in every
         state every node broadcasts once and the foreign device table is read, and the lifetime rules of the
-        statement are evaluated.
+        statement are evaluated.  In the "moves" configurations the device may register with either BBMD at any time
+        (both tables then list it for a while); in the "wire" configurations it sits next to the other BBMD.
 Part 3 (deterministic sweep): TTL 1..300 with the renewals lost: the instant at which the registration stops
         being served / listed must fall in [TTL, TTL+30 s] after the acknowledgement, and the device must be
         served again after the first renewal that gets through.
@@ -32,8 +34,14 @@ RULE = ("part1: every layout of the family x every node as originator x (FIFO de
         "subnet (one-hop) masks to the BBMDs, full tables.  Family B: every combination of per-BBMD peer subsets (2 and 3 "
         "BBMDs; for 4 BBMDs one BBMD with each proper subset, nobody-lists-anybody, ring, star) x every mask assignment on "
         "fixed shapes (one ordinary node and one foreign device per BBMD; the same plus a subnet without BBMD; two devices at "
-        "one BBMD with bare peers).  A case is distinct by (layout, originator, choice sequence).  "
-        "part2: BFS over histories of register(fd, ttl in 1..3) | unregister | Delete-FDT-Entry sent to the BBMD | lose / "
+        "one BBMD with bare peers).  Family C: foreign devices whose IP address lies on the wire of a BBMD other than their "
+        "registrar (2..3 BBMD subnets with 0/1 ordinary node each, with / without a subnet that has no BBMD; device 0 registered "
+        "with BBMD 0 on the wire of BBMD 1, optional device 1 with any registrar on a subnet of its own or on the wire of any other "
+        "BBMD; every mask assignment; full tables and, with one ordinary node per subnet, the partial tables); candidates in "
+        "which Annex J itself hands the device its registrar's datagram twice (registrar lists that wire's BBMD with a subnet "
+        "mask) are counted and not run.  A case is distinct by (layout, originator, choice sequence).  "
+        "part2: BFS over histories of register(fd, ttl in 1..3 [with any of the BBMDs in the 'moves' configurations: the device "
+        "changes its registrar with or without unregistering]) | unregister | Delete-FDT-Entry sent to the BBMD | lose / "
         "pass the device's renewals | advance 0.5 s | 1 s | 30 s (30 s only while a registration is lapsing); in every "
         "state one broadcast from every kind of node and one Read-FDT are executed and judged (they are transitions too if "
         "they change the state).  A state is the canonical snapshot of every BIPBBMD / BIPForeign object (FDT entries with "
@@ -45,7 +53,14 @@ RULE = ("part1: every layout of the family x every node as originator x (FIFO de
         "5 s between), then renewals pass again.")
 ASSUMPTIONS = [
     "single thread; virtual clock bound to bacpypes.task._time; UDP is replaced by vlan.IPNode on controlled IPNetworks joined by vlan.IPRouter",
-    "foreign devices sit on subnets of their own (BIPForeign ignores Original-Broadcast-NPDU on its own wire; the statement does not decide that)",
+    "foreign devices sit on subnets of their own (BIPForeign ignores Original-Broadcast-NPDU on its own wire; the statement does not decide that), "
+    "or (family C, part 2 'wire' configurations) on the wire of a BBMD other than their registrar: such a device takes part in the network "
+    "through its registrar only (J.5.2), it must get one copy through the registrar's table and nothing from what the other stations put on "
+    "its wire; layouts in which the registrar's own Forwarded-NPDU reaches that wire as well (directed broadcast, or the registrar is the wire's "
+    "BBMD) are outside the statement because Annex J itself duplicates there",
+    "a device that moves its registration to another BBMD releases the earlier one like an unregistration does: the old BBMD may list it until "
+    "that entry's TTL + grace is over, must not afterwards; whether the old entry still serves the device is not judged, two copies or its own "
+    "broadcast coming back always are",
     "ordinary nodes on a subnet without BBMD are expected to reach their own subnet only; every BBMD lists itself",
     "part 2/3 run on a perfect zero-latency network: the only nondeterminism is the history; datagram loss is limited to the device's own Register-Foreign-Device requests",
     "instants exactly on a lifetime boundary (within 1 ms) are not judged; whether a BBMD must refuse Distribute-Broadcast from an unregistered sender is not judged",
@@ -53,9 +68,11 @@ ASSUMPTIONS = [
 ]
 BOUNDS = {
     "quick": "part1 <=3 subnets, <=2 foreign devices, d<=1 reordering; part2 1 foreign device: closure (histories of any length) "
-             "without datagram loss on a two-hop and a one-hop internetwork, depth<=7 with lost renewals; part3 TTL 1..300 x 2 phases",
+             "without datagram loss on a two-hop and a one-hop internetwork and with the device on the other BBMD's wire, depth<=7 with "
+             "lost renewals, depth<=4 when the device may move between the two BBMDs (lost renewals included); part3 TTL 1..300 x 2 phases",
     "thorough": "part1 <=4 subnets, <=3 foreign devices, d<=1 reordering; part2 1 device: closure without loss, with lost renewals "
                 "closure attempted on the two-hop internetwork (depth<=70, reported per configuration) and depth<=8 one-hop; "
+                "moving between two BBMDs depth<=6 (two-hop), <=5 (one-hop, lost renewals; device on a third BBMD's wire); "
                 "2 devices: depth<=8 without loss, <=6 with lost renewals; part3 TTL 1..300 x 4 phases, every 0.5 s",
 }
 
@@ -129,8 +146,63 @@ def p1_layouts(tier):
     return out
 
 
+def p1_layouts_wire(tier):
+    """Family C: foreign devices whose IP address lies on the wire of a BBMD other than the one they are registered with
+    (next to that BBMD and its ordinary nodes).  Returns (layouts inside the statement, number of candidates outside).
+
+    Candidates: 2 [thorough: 2..3] BBMD subnets with 0/1 ordinary node each (every ordered combination), with and without
+    an extra subnet that has no BBMD; for 3 BBMD subnets in the quick tier all with / all without an ordinary node.  Device 0
+    is registered with BBMD 0 and sits on the wire of BBMD 1; an optional device 1 is registered with any BBMD and sits on
+    a subnet of its own or on the wire of any other BBMD.  Every mask assignment; full tables, and on the shapes with one
+    ordinary node per subnet every combination of partial tables as well.  A candidate is outside the statement when Annex
+    J itself hands a device two copies (bbmdref.Topology.registrar_copies): the registrar lists the BBMD of the device's
+    wire with a subnet mask, so that its directed broadcast arrives on that wire with the registrar's own address."""
+    from bv.stacks.bipsys import layout_topology, layout_fdt
+    cands = []
+
+    def fd_options(k):
+        opts = [([0], [1])]
+        for r in range(k):
+            for w in [None] + [x for x in range(k) if x != r]:
+                opts.append(([0, r], [1, w]))
+        return opts
+
+    for k in (2, 3):
+        ords = list(itertools.product((0, 1), repeat=k))
+        if k == 3 and tier == "quick":
+            ords = [(0, 0, 0), (1, 1, 1)]
+        for o in ords:
+            for extra in ((), ((0, 1),)):
+                if k == 3 and extra and tier == "quick":
+                    continue
+                subs = [[1, n] for n in o] + [list(e) for e in extra]
+                bb = list(range(k))
+                tables = ["full"]
+                if all(o) and not extra:
+                    combos = itertools.product(*[list(_subsets([p_ for p_ in bb if p_ != b])) for b in bb])
+                    part = [dict(zip([str(b) for b in bb], c)) for c in combos]
+                    part = [t for t in part if not all(len(t[str(b)]) == k - 1 for b in bb)]
+                    if k == 3 and tier == "quick":
+                        # quick: the tables in which exactly one BBMD has a proper subset of peers
+                        part = [t for t in part if sum(1 for b in bb if len(t[str(b)]) < k - 1) == 1]
+                    tables += part
+                for t in tables:
+                    fdo = fd_options(k) if t == "full" else [([0], [1])] + ([([0, 1], [1, 2])] if k == 3 else [([0, 1], [1, 0])])
+                    for mask in _mask_choices(bb):
+                        for fds, wires in fdo:
+                            cands.append({"subnets": subs, "fds": list(fds), "fdwire": list(wires), "bdt": t, "mask": mask, "family": "C"})
+    out, outside = [], 0
+    for lay in cands:
+        if layout_topology(lay).inside_statement(layout_fdt(lay)):
+            out.append(lay)
+        else:
+            outside += 1
+    return out, outside
+
+
 def lay_key(lay):
-    return (tuple(map(tuple, lay["subnets"])), tuple(lay["fds"]), repr(lay["bdt"]), repr(lay["mask"]))
+    return (tuple(map(tuple, lay["subnets"])), tuple(lay["fds"]), repr(lay["bdt"]), repr(lay["mask"]),
+            tuple(lay.get("fdwire") or ()))
 
 
 def p1_execute(lay, origin, choices, max_steps=600):
@@ -285,26 +357,36 @@ class Hist(object):
         now = vclock.clock.now
         ev = []
         lapsing = False
+        homes = self.cfg.get("homes")       # BBMDs a device may register with (default: its home BBMD only)
         for fd in sorted(s.life):
             life = s.life[fd]
             for ttl in self.cfg["ttls"]:
-                ev.append(("reg", fd, ttl))
+                if homes:
+                    ev.extend(("reg", fd, ttl, b) for b in homes)
+                else:
+                    ev.append(("reg", fd, ttl))
             if life.mode == "wanted":
                 ev.append(("unreg", fd))
             home = s.fd_home[fd]
-            r = life.rec.get(home)
-            if r is not None and not r[2]:
-                ev.append(("del", fd))
+            for b in (homes or [home]):
+                r = life.rec.get(b)
+                if r is not None and not r[2]:
+                    ev.append(("del", fd, b) if homes else ("del", fd))
             if self.cfg.get("mute"):
                 if fd in s.muted:
                     ev.append(("pass", fd))
                 elif life.mode == "wanted":
                     ev.append(("lose", fd))
-            # a registration is lapsing: renewals are being lost, or the device unregistered and may still be listed
+            # a registration is lapsing: renewals are being lost, or the device unregistered and may still be listed,
+            # or it moved its registration away from a BBMD that may still list it
             if fd in s.muted:
                 lapsing = True
-            if life.mode == "unregistered" and r is not None and not r[2] and life.listed(now, home) != "mustnot":
-                lapsing = True
+            for b in (homes or [home]):
+                r = life.rec.get(b)
+                if r is None or r[2] or life.listed(now, b) == "mustnot":
+                    continue
+                if life.mode == "unregistered" or (life.mode == "wanted" and b != life.bbmd):
+                    lapsing = True
         ev.append(("adv", 0.5))
         ev.append(("adv", 1.0))
         if lapsing:
@@ -322,11 +404,11 @@ class Hist(object):
         kind = ev[0]
         try:
             if kind == "reg":
-                s.register(ev[1], ev[2])
+                s.register(ev[1], ev[2], ev[3] if len(ev) > 3 else None)
             elif kind == "unreg":
                 s.unregister(ev[1])
             elif kind == "del":
-                s.delete_entry(self.manager, s.fd_home[ev[1]], ev[1])
+                s.delete_entry(self.manager, ev[2] if len(ev) > 2 else s.fd_home[ev[1]], ev[1])
             elif kind == "lose":
                 s.muted.add(ev[1])
             elif kind == "pass":
@@ -435,18 +517,32 @@ def p2_configs(tier):
     one = {"subnets": [[1, 1], [1, 1]], "fds": [0], "bdt": "full", "mask": "subnet"}
     src = ["o0a", "o1a", "b0", "f0"]
 
-    def cfg(label, layout, mute, sources=src, read=("b0",), ttls=(1, 2, 3), manager="o0a"):
-        return {"layout": layout, "sources": list(sources), "read": list(read), "manager": manager, "ttls": list(ttls),
-                "mute": mute, "label": label}
+    def cfg(label, layout, mute, sources=src, read=("b0",), ttls=(1, 2, 3), manager="o0a", homes=None):
+        c = {"layout": layout, "sources": list(sources), "read": list(read), "manager": manager, "ttls": list(ttls),
+             "mute": mute, "label": label}
+        if homes:
+            # the device may register with any of these BBMDs: histories in which it moves its registration, with and
+            # without unregistering first; every one of them is read in every state
+            c["homes"] = list(homes)
+            c["read"] = list(homes)
+        return c
 
+    both = ("b0", "b1")
+
+    # a device on the wire of BBMD 1 (next to it and its ordinary node) registered with BBMD 0; the same on the wire of a
+    # third BBMD, moving between the other two
+    wired = {"subnets": [[1, 1], [1, 1]], "fds": [0], "fdwire": [1], "bdt": "full", "mask": "host"}
     # without datagram loss the state space is finite and small: the bound 60 is never reached, the search ends when the
     # frontier is empty (closure: every history of any length over this alphabet has been judged)
     if tier == "quick":
         return [
             (cfg("1fd-two-hop", two, False), 60, 100000),
             (cfg("1fd-one-hop", one, False, manager="o1a"), 60, 100000),
+            (cfg("1fd-moves-two-hop-lost-renewals", two, True, homes=both), 4, 100000),
+            (cfg("1fd-on-peer-wire-two-hop", wired, False), 60, 100000),
             (cfg("1fd-two-hop-lost-renewals", two, True), 7, 100000),
         ]
+    wired3 = {"subnets": [[1, 1], [1, 0], [1, 1]], "fds": [0], "fdwire": [2], "bdt": "full", "mask": {"0": "subnet", "1": "host", "2": "host"}}
     twofd = {"subnets": [[1, 1], [1, 0]], "fds": [0, 1], "bdt": "full", "mask": "host"}
     samefd = {"subnets": [[1, 1]], "fds": [0, 0], "bdt": "full", "mask": "host"}
     return [
@@ -455,6 +551,10 @@ def p2_configs(tier):
         (cfg("1fd-one-hop-lost-renewals", one, True, manager="o1a"), 8, 2000000),
         (cfg("2fd-two-bbmds", twofd, False, sources=["o0a", "b1", "f0", "f1"], read=["b0", "b1"], ttls=(1, 3)), 8, 2000000),
         (cfg("2fd-one-bbmd-lost-renewals", samefd, True, sources=["o0a", "f0", "f1"], ttls=(1, 2)), 6, 2000000),
+        (cfg("1fd-on-peer-wire-two-hop", wired, False), 60, 2000000),
+        (cfg("1fd-moves-two-hop", two, False, homes=both), 6, 2000000),
+        (cfg("1fd-moves-one-hop-lost-renewals", one, True, manager="o1a", homes=both), 5, 2000000),
+        (cfg("1fd-on-third-wire-moves", wired3, False, sources=["o0a", "b1", "o2a", "f0"], homes=both), 5, 2000000),
         # last, with whatever is left of part 2's share: closes at about 75 000 states when it is given the time
         (cfg("1fd-two-hop-lost-renewals", two, True), 70, 400000),
     ]
@@ -801,6 +901,15 @@ def _determinism():
         o.append((h.observation(), h.sys.canon_state()))
     if o[0] != o[1]:
         raise HarnessError("C13 part2: the same history replayed twice differs")
+    cfg = [c for (c, _d, _n) in p2_configs("quick") if c.get("homes")][0]
+    hist = (("reg", "f0", 3, "b0"), ("adv", 1.0), ("reg", "f0", 2, "b1"), ("bcast", "o0a"), ("lose", "f0"), ("adv", 1.0),
+            ("del", "f0", "b0"), ("bcast", "f0"), ("read", "b0"), ("reg", "f0", 1, "b0"), ("adv", 30.0), ("read", "b1"))
+    o = []
+    for _ in range(2):
+        h = p2_replay(cfg, hist)
+        o.append((h.observation(), h.sys.canon_state()))
+    if o[0] != o[1]:
+        raise HarnessError("C13 part2: the same history with a moved registration replayed twice differs")
 
 
 def run(tier, seed, deadline):
@@ -844,6 +953,10 @@ def run(tier, seed, deadline):
     # ---- part 1
     if "1" in parts:
         lays = p1_layouts(tier)
+        wire_lays, outside = p1_layouts_wire(tier)
+        lays += wire_lays
+        acc.info["part1 layouts with a foreign device on the wire of another BBMD (family C)"] = len(wire_lays)
+        acc.info["part1 family C candidates outside the statement (not run)"] = outside
         lays.sort(key=lambda l: (sum(a + b for a, b in l["subnets"]) + len(l["fds"]), l["family"]))
         acc.info["part1 layouts in the family"] = len(lays)
         run_shards(p1_shard, [(1, c) for c in chunks(lays, 128)], deadline, into=acc)
